@@ -6,6 +6,14 @@ from wavespectra.core.attributes import attrs, set_spec_attributes
 from wavespectra.input.netcdf import read_netcdf
 
 
+MAPPING = {
+    "d2fd": attrs.SPECNAME,
+    "frequency": attrs.FREQNAME,
+    "direction": attrs.DIRNAME,
+    "longitude": attrs.LONNAME,
+    "latitude": attrs.LATNAME,
+}
+
 DEFAULT_FREQS = np.full(30, 0.03453) * (1.1 ** np.arange(0, 30))
 DEFAULT_DIRS = (np.arange(7.5, 352.5 + 15, 15) + 180) % 360
 
@@ -56,6 +64,10 @@ def from_era5(dset, freqs=None, dirs=None):
         - Formated dataset with the SpecDataset accessor in the `spec` namespace.
 
     """
+
+    # Rename native ERA5 names if dataset has not been through read_netcdf
+    mapping = {k: v for k, v in MAPPING.items() if k in dset.variables or k in dset.dims}
+    dset = dset.rename(mapping)
 
     # Convert ERA5 format to wavespectra format
     dset = 10**dset * np.pi / 180
